@@ -3,7 +3,7 @@ next / task.value() / list_of_generator / take_first (public API only) and repor
 result, the number of generator.send calls made on the underlying generator and is_stopped."""
 import _common
 from asynq import asynq, AsyncTask, ConstFuture
-from asynq.futures import ErrorFuture
+from asynq.futures import ErrorFuture, Future
 from asynq.batching import DebugBatchItem
 from asynq.generator import END_OF_GENERATOR, Value, async_generator, list_of_generator, take_first
 
@@ -23,7 +23,99 @@ def pyval(t):
     raise ValueError(t)
 
 
+# ------------------------------------------------------------------ payloads of Values
+# What a body puts into Value(...) is any Python object: data (None, ints, tuples / lists) or a FUTURE the
+# consumer is meant to receive as an object (an unstarted task it wants to batch, a computed task, a
+# ConstFuture / ErrorFuture, a lazy Future, an unflushed batch item).  Every future payload of a case is
+# registered here by id, so that results can be canonicalised by IDENTITY (label = the id, never the
+# future's result) and so that "was it started" can be observed.
+PKINDS = ("PTaskNew", "PTaskDone", "PConst", "PErr", "PLazy", "PBatch")
+
+
+def plabel(i):
+    return {"VTuple": [[{"VInt": [-1]}, {"VInt": [i]}]]}
+
+
+class Payloads(object):
+    def __init__(self):
+        self.objs = {}          # id -> (kind, object)
+        self.ran = []           # ids of payload tasks / lazy futures whose function has run
+
+    def get(self, kind, i):
+        if i in self.objs:
+            return self.objs[i][1]          # the same object yielded again
+        ran = self.ran
+
+        @asynq()
+        def payload_task():
+            ran.append(i)
+            return 2000 + i
+
+        def provider():
+            ran.append(i)
+            return 2000 + i
+
+        if kind == "PTaskNew":
+            o = payload_task.asynq()
+        elif kind == "PTaskDone":
+            o = payload_task.asynq()
+            o.value()
+            del ran[-1:]                    # computed by the body itself, before it is yielded
+        elif kind == "PConst":
+            o = ConstFuture(2000 + i)
+        elif kind == "PErr":
+            o = ErrorFuture(VErr(3000 + i))
+        elif kind == "PLazy":
+            o = Future(provider)
+        elif kind == "PBatch":
+            o = DebugBatchItem("c17-payload", 2000 + i)
+        else:
+            raise ValueError(kind)
+        self.objs[i] = (kind, o)
+        return o
+
+    def find(self, v):
+        for i, (_, o) in self.objs.items():
+            if o is v:
+                return i
+        return None
+
+    def started(self):
+        """ids of the payload futures that were NOT computed when the body yielded them and that somebody
+        has started / computed since"""
+        out = []
+        for i, (kind, o) in sorted(self.objs.items()):
+            if kind in ("PTaskNew", "PLazy"):
+                if i in self.ran or o.is_computed():
+                    out.append(i)
+            elif kind == "PBatch":
+                if o.is_computed() or o.batch.is_flushed():
+                    out.append(i)
+        return out
+
+
+PAYLOADS = Payloads()
+
+
+def make_payload(p):
+    if p == "VNone":
+        return None
+    (k, a), = p.items()
+    if k == "VInt":
+        return a[0]
+    if k == "VTuple":
+        return tuple(make_payload(x) for x in a[0])
+    if k == "VList":
+        return [make_payload(x) for x in a[0]]
+    if k == "PFut":
+        return PAYLOADS.get(a[0], a[1])
+    raise ValueError(p)
+
+
 def treeval(v):
+    pid = PAYLOADS.find(v)
+    if pid is not None:
+        return plabel(pid)
     if v is None:
         return "VNone"
     if isinstance(v, int) and not isinstance(v, bool):
@@ -71,6 +163,7 @@ class Ctx(object):
         self.agen = None
         self.counter = None
         self.probes = []
+        self.yielded = []       # the objects the (outermost) body has put into a Value, in program order
 
 
 def make_future(kind, tres, ctx):
@@ -144,7 +237,10 @@ def make_agen(steps, top_ctx=None):
             elif k == "NYield":
                 yield make_awaitable(a[0], ctx)        # None: the same as a bare `yield`
             elif k == "NValue":
-                yield Value(pyval(a[0]))
+                obj = make_payload(a[0])
+                if top_ctx is not None:
+                    top_ctx.yielded.append(obj)
+                yield Value(obj)
             elif k == "NRaise":
                 raise VErr(a[0])
             elif k == "NNest":
@@ -153,6 +249,8 @@ def make_agen(steps, top_ctx=None):
                     x = yield task
                     if x is END_OF_GENERATOR:
                         continue
+                    if top_ctx is not None:
+                        top_ctx.yielded.append(x)
                     yield Value(x)
             else:
                 raise ValueError(k)
@@ -176,7 +274,14 @@ def lt_state(agen):
     return "computed" if t.is_computed() else "pending"
 
 
+def which(ctx, x):
+    """indices (in the order of the body's Value yields so far) of the yielded objects that x IS"""
+    return [j for j, o in enumerate(ctx.yielded) if o is x]
+
+
 def run_case(c):
+    global PAYLOADS
+    PAYLOADS = Payloads()
     body, ops = c["body"], c["ops"]
     via = c.get("meta", {}).get("via", "sync")
     ctx = Ctx()
@@ -202,11 +307,16 @@ def run_case(c):
             if name == "ONext":
                 h = next(agen)
                 handle = h
+                pid = PAYLOADS.find(h)
+                if pid is not None:
+                    extra["handle_is_payload"] = pid          # the future handed out IS an object the body put into a Value
                 if isinstance(h, AsyncTask):
                     r = "RTask"
                     extra["task_computed_on_return"] = bool(h.is_computed())
+                    extra["handle_is_last_task"] = h is agen.last_task
                 elif isinstance(h, ConstFuture):
                     r = {"RConst": [treeval(h.value())]}
+                    extra["ident"] = [which(ctx, h.value())]
                     if h.value() is END_OF_GENERATOR:
                         r = {"RConst": [{"VOther": [{"s": "END_OF_GENERATOR"}]}]}
                 else:
@@ -215,13 +325,19 @@ def run_case(c):
                 if handle is None:
                     r = "RNoHandle"
                 else:
-                    r = {"RItem": [item(handle.value())]}
+                    v = handle.value()
+                    r = {"RItem": [item(v)]}
+                    extra["ident"] = [which(ctx, v)]
             elif name == "OList":
                 l = through_task(list_of_generator, agen) if via == "task" else list_of_generator(agen)
                 r = {"RList": [[item(x) for x in l]]} if isinstance(l, list) else {"ROther": [{"s": type(l).__name__}]}
+                if isinstance(l, list):
+                    extra["ident"] = [which(ctx, x) for x in l]
             elif name == "OTake":
                 l = through_task(take_first, agen, a[0]) if via == "task" else take_first(agen, a[0])
                 r = {"RList": [[item(x) for x in l]]} if isinstance(l, list) else {"ROther": [{"s": type(l).__name__}]}
+                if isinstance(l, list):
+                    extra["ident"] = [which(ctx, x) for x in l]
             else:
                 r = None
         except BaseException as e:
@@ -232,7 +348,8 @@ def run_case(c):
             raise ValueError(name)
         post = {"pulls": len(ctx.counter.sent), "stopped": bool(agen.is_stopped), "last": lt_state(agen)}
         res.append({"": [r, post["pulls"], "true" if post["stopped"] else "false"]})
-        obs.append(dict(op=name, pre=pre, post=post, probes=ctx.probes[nprobe:], **extra))
+        obs.append(dict(op=name, pre=pre, post=post, probes=ctx.probes[nprobe:], nyielded=len(ctx.yielded),
+                        payload_started=PAYLOADS.started(), **extra))
     return {"out": {"": [res, list(ctx.counter.sent)]}, "obs": obs}
 
 
